@@ -62,6 +62,10 @@ type backend struct {
 type billCall struct {
 	got       []*backendpb.DeviceBillingStat
 	committed bool
+
+	// early is set when the backend replied OK without reading the whole
+	// stream.
+	early bool
 }
 
 func (b *backend) SaveDevicesBillingStat(stream grpc.ClientStreamingServer[backendpb.DeviceBillingStat, emptypb.Empty]) error {
@@ -90,6 +94,13 @@ func (b *backend) SaveDevicesBillingStat(stream grpc.ClientStreamingServer[backe
 
 			return status.Error(codes.Internal, "sim backend: storage failure")
 		}
+		if fault == "ok-early" && len(c.got) >= at {
+			// The reply comes while the client is still sending.
+			b.s.Fault("backend-ok-before-end-of-stream")
+			c.committed, c.early = true, true
+
+			return stream.SendAndClose(&emptypb.Empty{})
+		}
 	}
 
 	switch fault {
@@ -115,7 +126,9 @@ func startBackend(s *kernel.Sim, n *simnet.Net) (b *backend, stop func()) {
 		panic(err)
 	}
 	b = &backend{s: s}
-	srv := grpc.NewServer()
+	// Fixed flow-control windows (no bandwidth estimation): what a client can
+	// send ahead of the handler is bounded by them, whatever the timing.
+	srv := grpc.NewServer(grpc.InitialWindowSize(65535), grpc.InitialConnWindowSize(65535))
 	backendpb.RegisterDNSServiceServer(srv, b)
 	go func() { _ = srv.Serve(l) }()
 
@@ -167,11 +180,16 @@ func runC16(s *kernel.Sim, cfg string) {
 	ctx := context.Background()
 	faults := cfg != "nofault"
 
+	bulk := cfg == "bulk"
+	forceEarly := false
 	refresh := func(final bool) {
 		b.billFault = ""
 		if faults && !final && t.Chance(1, 2, "upload-fault") {
 			b.billFault = kernel.Pick(t, []string{"before", "middle", "end", "deadline"}, "fault-kind")
 			b.billAt = t.Range(1, 3, "fault-at")
+		}
+		if forceEarly {
+			b.billFault, b.billAt = "ok-early", t.Range(1, 3, "fault-at")
 		}
 		fault := b.billFault
 		calls := len(b.billCalls)
@@ -190,6 +208,15 @@ func runC16(s *kernel.Sim, cfg string) {
 		}
 		if call == nil {
 			// Nothing was pending.
+			return
+		}
+		if call.early {
+			// Only injected when the batch is far larger than the transport
+			// lets a client send ahead: the client has seen its stream end
+			// with records unsent.
+			s.Failf("C16/lost", "an upload whose stream the backend ended before all records were sent was treated as delivered",
+				"the backend replied after %d records, Refresh returned nil", len(call.got))
+
 			return
 		}
 		if !call.committed {
@@ -214,6 +241,25 @@ func runC16(s *kernel.Sim, cfg string) {
 				return
 			}
 		}
+	}
+
+	if bulk {
+		// A batch several times larger than the flow-control windows and the
+		// client's write buffer together (about 45 octets per record against
+		// 64 KiB each), then an upload the backend answers early.
+		nBulk := t.Range(8000, 10000, "bulk-devices")
+		q := &lastQuery{t: base.Add(time.Second), ctry: "US", asn: 1, proto: uint32(agd.ProtoDNS)}
+		for i := 0; i < nBulk; i++ {
+			dev := fmt.Sprintf("bulk%05d", i)
+			rec.Record(ctx, agd.DeviceID(dev), geoip.Country(q.ctry), geoip.ASN(q.asn), q.t, agd.Protocol(q.proto))
+			recorded[dev]++
+			last[dev] = q
+		}
+		s.Logf("recorded %d devices once", nBulk)
+		forceEarly = true
+		refresh(false)
+		forceEarly = false
+		s.Probe("bulk-upload-answered-early")
 	}
 
 	nOps := t.Range(3, 30, "ops")
